@@ -4,11 +4,11 @@ import (
 	"go.pennock.tech/tabular/texttable/decoration"
 )
 
-// firstTouch is the first thing this process asks of the decoration registry (every other
-// package-level initialiser that reads the registry depends on it): a registration over a built-in
-// name, before any lookup or listing, must win like any other.  The built-in is put back afterwards
-// so that nothing else in the run notices.
-var startupViolation = firstTouch()
+// firstTouch is the first thing its process asks of the decoration registry: a registration over a
+// built-in name, before any lookup or listing, must win like any other.
+// (Run in the race-validation process only, as its very first act: the process that produces the
+// protocol streams and the regenerated decoration facts must see the built-ins exactly as the library's
+// init left them.)
 
 func firstTouch() string {
 	custom := decoration.ASCIIBoxSimple()
